@@ -895,6 +895,90 @@ static void run_beadlist2(vfh::Rng &rng, vfh::Reporter &R, long n, const std::st
   }
 }
 
+// ------------------------------------------------------------------ (E) Topology::RenameMolecules(range, name) and the xml <rename range=".."/>
+// The range expression names 1-based molecule ids; an id beyond the molecule count makes the function throw.
+static void run_rename(vfh::Rng &rng, vfh::Reporter &R, long n, const std::string &tmpdir, long shard) {
+  using namespace votca::csg;
+  static bool plugins = false;
+  if (!plugins) { TopologyReader::RegisterPlugins(); plugins = true; }
+  std::ostringstream devnull;
+  for (long it = 0; it < n; ++it) {
+    long nmol = rng.range(4, 40);
+    // blocks with ids in 1..nmol (sometimes beyond), direction consistent with the stride
+    int nb = (int)rng.range(1, 3);
+    bool beyond = rng.coin(0.08);
+    std::set<long> want;
+    std::string expr;
+    bool blank_at_colon = false, any_blank = false, negstride = false;
+    auto blanks = [&](double p) { std::string b; if (rng.coin(p)) { b = rng.coin(0.8) ? " " : "  "; any_blank = true; } return b; };
+    expr += blanks(0.15);
+    for (int q = 0; q < nb; ++q) {
+      long hi = beyond ? nmol + 6 : nmol;
+      long a = rng.range(1, hi), b = rng.range(1, hi), s = rng.range(1, rng.coin(0.7) ? 3 : 7);
+      int fields = (int)rng.range(1, 3);
+      if (fields == 1) b = a;
+      if (fields == 2) { s = 1; if (a > b) std::swap(a, b); }
+      if (fields == 3) { if (rng.coin(0.3)) { s = -s; negstride = true; if (a < b) std::swap(a, b); } else if (a > b) std::swap(a, b); }
+      if (s > 0) for (long v = a; v <= b; v += s) want.insert(v); else for (long v = a; v >= b; v += s) want.insert(v);
+      if (q) { expr += blanks(0.3) + "," + blanks(0.3); }
+      auto colon = [&]() { std::string l = blanks(0.3), r = blanks(0.3); if (!l.empty() || !r.empty()) blank_at_colon = true; return l + ":" + r; };
+      expr += std::to_string(a);
+      if (fields == 2) expr += colon() + std::to_string(b);
+      if (fields == 3) expr += colon() + std::to_string(s) + colon() + std::to_string(b);
+    }
+    expr += blanks(0.15);
+    bool out_of_range = !want.empty() && *want.rbegin() > nmol;
+    // what RangeParser itself says about the expression
+    bool rp_accepts = true;
+    try { votca::tools::RangeParser rp; rp.Parse(expr); } catch (std::exception &) { rp_accepts = false; }
+    if (blank_at_colon) R.counter("rename_expressions_with_blank_adjacent_to_colon");
+    if (any_blank) R.counter("rename_expressions_with_blanks");
+    if (negstride) R.counter("rename_expressions_with_negative_stride");
+    if (out_of_range) R.counter("rename_expressions_with_id_beyond_molecule_count");
+    for (int route = 0; route < (tmpdir.empty() ? 1 : 2); ++route) {
+      Topology top;
+      bool threw = false;
+      std::string what;
+      const char *fam = route == 0 ? "rename_molecules_library" : "rename_molecules_xml";
+      std::string sfx = route == 0 ? "" : "/xml";
+      try {
+        if (route == 0) {
+          for (long k = 0; k < nmol; ++k) top.CreateMolecule("OLD");
+          top.RenameMolecules(expr, "NEW");
+        } else {
+          std::string fn = tmpdir + "/rn_" + std::to_string(shard) + "_" + std::to_string(it) + ".xml";
+          {
+            std::ofstream f(fn);
+            f << "<topology>\n <molecules>\n  <molecule name=\"OLD\" nmols=\"" << nmol << "\" nbeads=\"1\">\n   <bead name=\"A\" type=\"A\" mass=\"1\" q=\"0\"/>\n  </molecule>\n"
+              << "  <rename name=\"NEW\" range=\"" << expr << "\"/>\n </molecules>\n</topology>\n";
+          }
+          std::streambuf *old = std::cout.rdbuf(devnull.rdbuf()), *olde = std::cerr.rdbuf(devnull.rdbuf());
+          try {
+            auto reader = TopReaderFactory().Create(fn);
+            reader->ReadTopology(fn, top);
+          } catch (...) { std::cout.rdbuf(old); std::cerr.rdbuf(olde); unlink(fn.c_str()); throw; }
+          std::cout.rdbuf(old); std::cerr.rdbuf(olde);
+          devnull.str("");
+          unlink(fn.c_str());
+        }
+      } catch (std::exception &e) { threw = true; what = e.what(); }
+      R.eval(fam);
+      J wit;
+      wit.s("range", expr).i("molecules", nmol).s("route", route == 0 ? "Topology::RenameMolecules" : "xml topology <rename name=\"NEW\" range=..>").vec("expected_renamed_ids_1based", want).b("range_parser_accepts", rp_accepts).b("threw", threw).s("exception", what);
+      if (!rp_accepts) { R.counter(threw ? "rename_rejected_like_the_parser" : "obs_rename_accepts_what_the_parser_rejects"); continue; }
+      if (out_of_range) { R.counter(threw ? "rename_id_beyond_count_throws" : "obs_rename_id_beyond_count_accepted"); continue; }
+      if (threw) { R.violation("rename-molecules/valid-range-rejected" + sfx, "a range expression that RangeParser accepts and that names existing molecules is rejected: " + what, wit); continue; }
+      if ((long)top.MoleculeCount() != nmol) { R.inconclusive("rename family: molecule count differs"); continue; }
+      std::vector<long> got;
+      for (long k = 0; k < nmol; ++k) if (top.getMolecule(k)->getName() == "NEW") got.push_back(k + 1);
+      std::vector<long> w(want.begin(), want.end());
+      if (got != w) R.violation("rename-molecules/renamed-set-differs" + sfx, "the molecules that carry the new name are not the ones the range expression denotes", wit.vec("got_renamed_ids_1based", got));
+      else if (w.size() >= 2 && w.size() < (size_t)nmol) R.nontrivial(vfh::hstr(vfh::hmix(51 + route, (uint64_t)nmol), expr));
+      if (R.want_sample() && blank_at_colon && route == 1 && w.size() >= 3) R.sample(wit.vec("got_renamed_ids_1based", got));
+    }
+  }
+}
+
 int main(int argc, char **argv) {
   vfh::Args A(argc, argv);
   long seed = A.num("seed", 1), shard = A.num("shard", 0), nshards = A.num("shards", 16);
@@ -933,6 +1017,7 @@ int main(int argc, char **argv) {
   { vfh::Rng r(s + 1819); run_index_reuse(r, R, nindex / 4 + 1); }
   { vfh::Rng r(s + 18181); run_beadlist(r, R, nbead); }
   { vfh::Rng r(s + 18182); run_beadlist2(r, R, nbead, A.str("tmpdir", ""), shard); }
+  { vfh::Rng r(s + 18183); run_rename(r, R, A.num("rename", nbead * 4), A.str("tmpdir", ""), shard); }
   R.summary();
   return 0;
 }
